@@ -28,6 +28,23 @@ env.pop('GOWORK', None)
 muts = []
 for f in sorted(glob.glob('/verif/mutants/*.json')):
     muts += json.load(open(f))
+# patch variants: behaviour-preserving refactorings written by sub-agents (must stay silent on every property they
+# were written around) and the sub-agents' seeded changes (must be reported by the rules recorded in their meta.json)
+import re
+for d in sorted(glob.glob('/verif/benign/C*/')):
+    p = os.path.basename(d.rstrip('/'))
+    for f in sorted(glob.glob(d + '*.diff')):
+        muts.append({'id': 'benign-%s-%s' % (p, os.path.basename(f)[:-5]), 'prop': p, 'patch': f, 'expect': '',
+                     'note': 'behaviour-preserving refactoring (sub-agent)'})
+for d in sorted(glob.glob('/verif/seeded/*/')):
+    try:
+        meta = json.load(open(d + 'meta.json'))
+    except Exception:
+        continue
+    rules = sorted(set(re.match(r'(C\d+\.R\w+)', k).group(1) for k in meta.get('detected_by', []) if re.match(r'(C\d+\.R\w+)', k)))
+    for r in rules:
+        muts.append({'id': 'seeded-%s-%s' % (meta['id'], r), 'prop': r.split('.')[0], 'patch': d + 'patch.diff', 'expect': r,
+                     'note': 'sub-agent change breaking ' + meta.get('breaks_property', '?')})
 props = [p for p in args.prop.split(',') if p]
 if props:
     muts = [m for m in muts if m['prop'] in props]
@@ -43,14 +60,22 @@ try:
     subprocess.check_call(['rsync', '-a', '--exclude', '.git', '--exclude', 'testplans', args.repo + '/', copy + '/'])
     results = []
     for m in muts:
-        path = os.path.join(copy, m['file'])
-        orig = open(os.path.join(args.repo, m['file'])).read()
-        if orig.count(m['old']) != 1:
-            results.append((m, 'skipped', 'patch does not apply to the current tree (%d matches)' % orig.count(m['old'])))
-            continue
-        open(path, 'w').write(orig.replace(m['old'], m['new']))
+        if 'patch' in m:
+            a = subprocess.run(['patch', '-p1', '-s', '--no-backup-if-mismatch', '-i', m['patch']], cwd=copy, capture_output=True, text=True)
+            if a.returncode != 0:
+                subprocess.run(['patch', '-R', '-p1', '-s', '-f', '--no-backup-if-mismatch', '-i', m['patch']], cwd=copy, capture_output=True)
+                subprocess.check_call(['rsync', '-a', '--delete', '--exclude', '.git', '--exclude', 'testplans', args.repo + '/', copy + '/'])
+                results.append((m, 'skipped', 'patch does not apply to the current tree'))
+                continue
+            path, orig = None, None
+        else:
+            path = os.path.join(copy, m['file'])
+            orig = open(os.path.join(args.repo, m['file'])).read()
+            if orig.count(m['old']) != 1:
+                results.append((m, 'skipped', 'patch does not apply to the current tree (%d matches)' % orig.count(m['old'])))
+                continue
+            open(path, 'w').write(orig.replace(m['old'], m['new']))
         try:
-            pkg = './' + os.path.dirname(m['file']) if os.path.dirname(m['file']) else '.'
             b = subprocess.run(['go', 'build', './...'], cwd=copy, env=env, capture_output=True, text=True)
             if b.returncode != 0:
                 results.append((m, 'skipped', 'mutant does not compile: ' + b.stderr.strip().splitlines()[-1][:160]))
@@ -74,7 +99,10 @@ try:
                 else:
                     results.append((m, 'silent', 'benign variant: no alarm'))
         finally:
-            open(path, 'w').write(orig)
+            if path is None:
+                subprocess.run(['patch', '-R', '-p1', '-s', '-f', '--no-backup-if-mismatch', '-i', m['patch']], cwd=copy, capture_output=True)
+            else:
+                open(path, 'w').write(orig)
     n_det = sum(1 for _, s, _ in results if s in ('detected', 'detected-other', 'silent'))
     n_bad = sum(1 for _, s, _ in results if s in ('MISSED', 'FALSE-ALARM'))
     for m, s, why in results:
